@@ -210,6 +210,7 @@ pub trait ProbeCtl: Send + Sync {
     fn act(&self, r: React) -> bool;
     fn is_subscribed(&self) -> bool;
     fn err_id(&self) -> i32;
+    fn teardown(&self);
 }
 
 impl<T: Repr + Send + Sync + 'static> ProbeCtl for Arc<Probe<T>> {
@@ -230,5 +231,10 @@ impl<T: Repr + Send + Sync + 'static> ProbeCtl for Arc<Probe<T>> {
     }
     fn err_id(&self) -> i32 {
         self.err_id
+    }
+    fn teardown(&self) {
+        *self.talkback.lock().unwrap() = None;
+        *self.hook.lock().unwrap() = None;
+        *self.last_err.lock().unwrap() = None;
     }
 }
